@@ -11,10 +11,10 @@ import (
 
 func init() {
 	register(&core.Property{
-		ID:    "C17",
-		Title: "ACME: certificates requested exactly when needed, queue tracks Ingress changes",
+		ID:          "C17",
+		Title:       "ACME: certificates requested exactly when needed, queue tracks Ingress changes",
 		Explanation: "Static decision of the issuing decision and of the queue bookkeeping: (1) signer.verify calls Sign iff the secret cannot be read, or expires before now + the configured window, or does not cover every domain; `match` is an all-quantifier over the requested domains; (2) the secret is written only when certificate and key are both present, the error is reported otherwise; (3) add/remove of queue items happens only on the leader with an account, and the facade enqueues only on the leader; (4) the add and del lists are built after dropping unchanged add/del pairs, and a pair is dropped only when equal; (5) an acme storage acquired for an Ingress is linked to it and consumed by the partial sync; (6) acme is on for a tls block iff the tls-acme annotation (when tracked) is true or cert-signer is acme, and a storage is acquired only for a named secret.",
-		NotDecided: []string{"certificate time arithmetic at the boundary", "histories of the work queue"},
+		NotDecided:  []string{"certificate time arithmetic at the boundary", "histories of the work queue"},
 		Rules: []*core.Rule{
 			{ID: "C17.verify", Floor: 3, Run: c17Verify, Doc: "verify: Sign iff errSecret != nil || NotAfter.Before(now+expiring) || !match(domains, crt); match returns false for the first uncovered domain and true only after all were covered."},
 			{ID: "C17.store", Floor: 2, Run: c17Store, Doc: "SetTLSSecretContent only when crt != nil && key != nil; otherwise the sign error is returned."},
